@@ -104,7 +104,7 @@ mutual
       c.1 ∉ handles r → eraseWith (c :: cs) r = eraseWith cs r
     | node h v ks => by
       intro hn
-      simp only [handles_node, List.mem_cons, not_or] at hn
+      simp only [fi_handles_node, List.mem_cons, not_or] at hn
       have : declsFor (c :: cs) h v = declsFor cs h v := by
         unfold declsFor
         have : (c.1 == h) = false := by simpa using hn.1
@@ -115,7 +115,7 @@ mutual
     | [] => fun _ => rfl
     | k :: ks => by
       intro hn
-      simp only [handlesList_cons, List.mem_append, not_or] at hn
+      simp only [fi_handlesList_cons, List.mem_append, not_or] at hn
       simp only [eraseWithList, eraseWith_cons_not_mem c cs k hn.1, eraseWithList_cons_not_mem c cs ks hn.2]
 end
 
@@ -137,7 +137,7 @@ mutual
       eraseWith cs (mapAt e (nsEdit p ns fresh) r) = eraseWith ((e, p, ns) :: cs) r
     | node h v ks => by
       intro hnd
-      simp only [handles_node, List.nodup_cons] at hnd
+      simp only [fi_handles_node, List.nodup_cons] at hnd
       unfold mapAt
       by_cases hh : h = e
       · subst hh
@@ -162,7 +162,7 @@ mutual
     | [] => fun _ => rfl
     | k :: ks => by
       intro hnd
-      simp only [handlesList_cons, List.nodup_append] at hnd
+      simp only [fi_handlesList_cons, List.nodup_append] at hnd
       simp only [mapAtList, eraseWithList, eraseWith_nsEdit cs e p ns fresh k hnd.1,
         eraseWithList_nsEdit cs e p ns fresh ks hnd.2.1]
 end
